@@ -372,6 +372,10 @@ def shapes(tier):
     for k in ("FW_total", "F1_total", "g5_light"):
         out.append([(k, 2, 3, 4), ("g1_total", 1, 4, None)])
         out.append([(k, 1, 4, None)])
+    # two admissible spellings of one observable (bare kind = kind_total) are two independent keys of an Output
+    out.append([("F2", 1, 2, 4), ("F2_total", 2, 1, None)])
+    out.append([("XSHERANC_total", 2, 2, 4), ("XSHERANC", 1, 1, None)])
+    out.append([("F2_charm", 1, 1, 4), ("F2_light", 2, 2, 4), ("F2", 1, 3, None)])
     out.append([])
     return out
 
@@ -382,7 +386,7 @@ def run(chk, only=None):
 
     chk.encode(outmod.Output.get_raw, outmod.Output.dump_yaml, outmod.Output.load_yaml, outmod.Output.dump_tar, outmod.Output.load_tar,
                resmod.ESFResult.get_raw, resmod.ESFResult.from_document, resmod.EXSResult.get_raw, resmod.EXSResult.from_document)
-    chk.bounds = {"observables": "<= 2 (one SF, one XS) + metadata", "points per observable": "{None, 0, 1, 2}", "orders": "1..3 keys",
+    chk.bounds = {"observables": "<= 3 (SF and XS kinds, bare and _total spellings side by side) + metadata", "points per observable": "{None, 0, 1, 2}", "orders": "1..3 keys",
                   "tensors": "2x2 of symbolic tokens", "nf": "{None, int}", "formats": "yaml, tar, yaml+tar, tar+yaml, yaml+yaml, tar+tar"}
     chk.stub("yaml.(safe_)dump/(safe_)load -> identity on YAML-native data, NotYamlNative error on anything else",
              "np.savez_compressed/np.load, tarfile, tempfile, pathlib -> in-memory store", "float()/int() in result.py -> identity on tokens")
